@@ -72,6 +72,7 @@ def stage_spec(dst):
 _RE_STATES = re.compile(r"(\d+) states generated, (\d+) distinct states found, (\d+) states left on queue")
 _RE_DEPTH = re.compile(r"The depth of the complete state graph search is (\d+)")
 _RE_HWM = re.compile(r'"HWM", (\d+)')
+_RE_REJECT = re.compile(r'"REJECT", (\d+)')
 _RE_COV = re.compile(r"^<(\w+) line (\d+), col (\d+) to line (\d+), col (\d+) of module (\w+)>: (\d+):(\d+)", re.M)
 
 
@@ -108,6 +109,7 @@ class TlcResult:
             ls = re.findall(r"^/\\ l = (\d+)", out, re.M)
             if ls:
                 self.trace_l = int(ls[-1])
+        self.rejected_lines = sorted(set(int(x) for x in _RE_REJECT.findall(out)))
         self.java_error = ("java.lang." in out and "Error" in out) or "Exception in thread" in out
         self.tlc_error = None
         me = re.search(r"^Error: (.*)$", out, re.M)
@@ -273,9 +275,14 @@ def validate_traces(pid, module, cfg, lines, reset_pred, nshards=None, timeout=9
             v.errors.append(err)
             continue
         v.states += r.distinct
+        # stateless trace specs flag a failing line (<<"REJECT", n>>) and go on, so that every line is examined
+        for n in r.rejected_lines:
+            v.rejections.append({"shard": tf, "line_no": n, "why": "the line does not satisfy the specification",
+                                 "line": sh[n - 1] if 0 < n <= len(sh) else None, "prev": [], "tlc_tail": ""})
         if r.ok() and (r.hwm is None or r.hwm >= len(sh) + 1):
-            v.accepted_lines += len(sh)
-            shutil.rmtree(d, ignore_errors=True)
+            v.accepted_lines += len(sh) - len(r.rejected_lines)
+            if not r.rejected_lines:
+                shutil.rmtree(d, ignore_errors=True)
             continue
         if (r.violated_invariant or r.violated_action_prop) and r.trace_l:
             bad = r.trace_l - 1
